@@ -80,7 +80,9 @@ U_AB = Union[TA, TB]
 U_ABN = Union[TA, TB, None]
 U_ADE = Union[TA, TD_, TE]
 
-OUTER = [("TA", TA), ("THolder", THolder), ("TDHolder", TDHolder), ("List[TA]", List[TA]), ("Dict[str, TA]", Dict[str, TA]), ("Optional[TA]", Optional[TA]),
+OUTER = [("TA", TA), ("THolder", THolder), ("TDHolder", TDHolder), ("List[TA]", List[TA]), ("Dict[str, TA]", Dict[str, TA]),
+         # the None-FIRST spelling of an Optional compares and hashes equal to the None-last one (one cache entry for both): probed BEFORE it
+         ("Union[None, TA]", Union[None, TA]), ("Union[None, int]", Union[None, int]), ("Optional[TA]", Optional[TA]), ("Optional[int]", Optional[int]),
          ("Tuple[TA, int]", Tuple[TA, int]), ("Tuple[TA, ...]", Tuple[TA, ...]), ("Union[TA, TB]", U_AB), ("Union[TA, TB, None]", U_ABN),
          ("Union[TA, TD_, TE]", U_ADE), ("List[Union[TA, TB]]", List[U_AB]), ("TNT", TNT), ("TTD", TTD), ("List[int]", List[int]), ("Dict[str, int]", Dict[str, int]),
          ("Set[int]", set[int]), ("TExpr", TExpr), ("TAdd", TAdd), ("List[TExpr]", List[TExpr])]
@@ -91,7 +93,7 @@ def values_for(label):
     a, a2, b, d = TA(1), TA(2, "z"), TB("q"), TD_(5)
     return {
         "TA": [a, a2], "THolder": [THolder(a, 3)], "TDHolder": [TDHolder(a, b), TDHolder(a2, a)], "List[TA]": [[a, a2], []], "Dict[str, TA]": [{"p": a}],
-        "Optional[TA]": [a, None], "Tuple[TA, int]": [(a, 4)], "Tuple[TA, ...]": [(a, a2)], "Union[TA, TB]": [a, b], "Union[TA, TB, None]": [a, b, None],
+        "Optional[TA]": [a, None], "Union[None, TA]": [a, None], "Union[None, int]": [3, None], "Optional[int]": [3, None], "Tuple[TA, int]": [(a, 4)], "Tuple[TA, ...]": [(a, a2)], "Union[TA, TB]": [a, b], "Union[TA, TB, None]": [a, b, None],
         "Union[TA, TD_, TE]": [a, d, TE()], "List[Union[TA, TB]]": [[a, b]], "TNT": [TNT(a, 2)], "TTD": [{"x": a, "n": 2}], "List[int]": [[1, 2]],
         "Dict[str, int]": [{"k": 1}], "Set[int]": [{1, 2}],
         "TExpr": [TLit(1), TAdd(TLit(1), TAdd(TLit(2), TLit(3)), TLit(4))], "TAdd": [TAdd(TLit(1), TAdd(TLit(2), TLit(3), TLit(5)))],
@@ -111,8 +113,10 @@ def payloads_for(label):
         return [[p] for p in pa[:4]] + [[]]
     if label == "Dict[str, TA]":
         return [{"p": p} for p in pa[:4]]
-    if label == "Optional[TA]":
+    if label in ("Optional[TA]", "Union[None, TA]"):
         return pa[:4] + [None]
+    if label in ("Optional[int]", "Union[None, int]"):
+        return [3, None, "x"]
     if label == "Tuple[TA, int]":
         return [(p, 4) for p in pa[:4]]
     if label == "Tuple[TA, ...]":
@@ -262,7 +266,7 @@ def check_c08_twin(v: Verdict, n_cases: int):
     v.coverage["twin_battery"] = hist
 
 
-def strategy_after_warm(v: Verdict, hist):
+def strategy_after_warm(v: Verdict, hist, only=None, lane="TWIN/C08 strategy after use"):
     """systematic: every strategy (include_subclasses with / without a union strategy, configure_tagged_union, union passthrough) applied
     to a converter on which ONE probe type was used before (each type, each direction) vs the same strategy on a fresh converter:
     strategies build hooks from hooks they fetch from the converter, and must not pick up what earlier use left in its caches"""
@@ -275,6 +279,8 @@ def strategy_after_warm(v: Verdict, hist):
                   ("configure_union_passthrough(Union[int, str, None], conv)", lambda c: configure_union_passthrough(Union[int, str, None], c))]
     n = 0
     for sname, apply in strategies:
+        if only is not None and not any(o in sname for o in only):
+            continue
         for label, T in OUTER:
             for direction in ("unstructure", "structure", "get_unstructure_hook", "get_structure_hook"):
                 for dv in (True, False):
@@ -298,12 +304,12 @@ def strategy_after_warm(v: Verdict, hist):
                     v.count(repr(("strategy-after-warm", sname, label, direction, dv)), True)
                     if ra[0] != rb[0]:
                         v.violation("a strategy can be applied to one of {used converter, fresh converter} only",
-                                    {"lane": "TWIN/C08 strategy after use", "detailed_validation": dv, "steps": steps, "used": ra, "fresh": rb})
+                                    {"lane": lane, "detailed_validation": dv, "steps": steps, "used": ra, "fresh": rb})
                         continue
                     pa, pb = probe(warmed, True), probe(fresh, True)
                     for (what, xa), (_w, xb) in zip(pa, pb):
                         if xa != xb:
                             v.violation("a strategy applied after the converter was used behaves differently from the same strategy on a fresh converter (it picked up cached hooks)",
-                                        {"lane": "TWIN/C08 strategy after use", "detailed_validation": dv, "steps": steps, "probe": what, "used": xa, "fresh": xb})
+                                        {"lane": lane, "detailed_validation": dv, "steps": steps, "probe": what, "used": xa, "fresh": xb})
                             break
     hist["strategy_after_warm_cases"] = n
